@@ -10,6 +10,9 @@ from .meshmc import curve
 
 from src.mesh import MeshParametrized
 from src.single_layer import SingleLayerOperator
+import src.single_layer as _SLmod
+
+_SLmod.print = lambda *a, **k: None  # silence timing chatter of the module under test
 
 
 def level_mesh(cname, tgrid, lt, lx, pre=''):
